@@ -47,6 +47,7 @@ func (c *Ctx) RegionIndex() []core.Ob {
 		}
 		return o
 	}
+	lay := c.regionLayout()
 	sh := c.regionHeaderWriter()
 	if sh == nil {
 		o := mk("setHead", "the Region method that writes a header slot (offset 4*(major*32+minor)) exists", nil)
@@ -115,7 +116,7 @@ func (c *Ctx) RegionIndex() []core.Ob {
 					continue
 				}
 				field := rootFieldOfAddr(x1.X, recv)
-				if field != "offsets" && field != "Timestamps" {
+				if field == "" || (field != lay.offsets && field != lay.stamps) {
 					continue
 				}
 				k++
@@ -147,33 +148,36 @@ func (c *Ctx) RegionIndex() []core.Ob {
 			continue
 		}
 		var seq []string
-		for _, b := range fn.Blocks {
-			for _, in := range b.Instrs {
-				ci, ok := in.(ssa.CallInstruction)
-				if !ok {
-					continue
+		// in the function or in the helpers of the package it reads / writes the header through
+		for _, n := range c.inlineView(fn, 2).nodes {
+			ci, ok := n.in.(ssa.CallInstruction)
+			if !ok {
+				continue
+			}
+			cn := calleeName(ci.Common())
+			if cn != "encoding/binary.Read" && cn != "encoding/binary.Write" {
+				continue
+			}
+			args := ci.Common().Args
+			order := "?"
+			if mi, ok := args[1].(*ssa.MakeInterface); ok {
+				order = mi.X.Type().String()
+			}
+			tgt := "?"
+			if mi, ok := args[2].(*ssa.MakeInterface); ok {
+				x := mi.X
+				if ld, ok := x.(*ssa.UnOp); ok { // binary.Write(w, order, r.offsets): the table by value
+					x = ld.X
 				}
-				cn := calleeName(ci.Common())
-				if cn != "encoding/binary.Read" && cn != "encoding/binary.Write" {
-					continue
-				}
-				args := ci.Common().Args
-				order := "?"
-				if mi, ok := args[1].(*ssa.MakeInterface); ok {
-					order = mi.X.Type().String()
-				}
-				tgt := "?"
-				if mi, ok := args[2].(*ssa.MakeInterface); ok {
-					if fa, ok := mi.X.(*ssa.FieldAddr); ok {
-						if st, ok := deref(fa.X.Type()).Underlying().(*types.Struct); ok {
-							tgt = st.Field(fa.Field).Name()
-						}
+				if fa, ok := x.(*ssa.FieldAddr); ok {
+					if st, ok := deref(fa.X.Type()).Underlying().(*types.Struct); ok {
+						tgt = st.Field(fa.Field).Name()
 					}
 				}
-				seq = append(seq, order[strings.LastIndex(order, ".")+1:]+":"+tgt)
 			}
+			seq = append(seq, order[strings.LastIndex(order, ".")+1:]+":"+tgt)
 		}
-		if strings.Join(seq, ",") != "bigEndian:offsets,bigEndian:Timestamps" {
+		if strings.Join(seq, ",") != "bigEndian:"+lay.offsets+",bigEndian:"+lay.stamps {
 			ob.Status, ob.Got = core.Violated, "transfer sequence is "+strings.Join(seq, ",")
 		}
 		obs = append(obs, ob)
